@@ -4821,6 +4821,8 @@ def _make_segments(part):
         destinations_navigation2 = [
             dest[12:] for dest in destinations if "Navigation2_" in dest
         ]
+        # da capo / dal segno at the end of this segment
+        jumps_back = len(destinations_navigation1) > 0
 
         # sort the repeats by ascending segment ID
         destinations_no_volta = list(set(destinations_no_volta))
@@ -4843,6 +4845,17 @@ def _make_segments(part):
         destinations_no_volta = [
             d for d in destinations_no_volta if d not in destinations_volta
         ]
+        if jumps_back:
+            # the music behind a da capo / dal segno (a coda) is reached only
+            # after the jump has been taken, like the END
+            own_id = segment_info[start_time]["ID"]
+            onward = [d for d in destinations_no_volta if d > own_id]
+            destinations_no_volta = [d for d in destinations_no_volta if d <= own_id]
+            destinations_navigation1 = (
+                [d for d in destinations_navigation1 if d != "END"]
+                + onward
+                + [d for d in destinations_navigation1 if d == "END"]
+            )
         destinations_cleaned = (
             destinations_volta + destinations_no_volta + destinations_navigation1
         )
